@@ -11,6 +11,8 @@ mod sas_lang;
 mod tests;
 mod text;
 pub(crate) mod token_type;
+#[cfg(sas_lexer_verif)]
+pub mod verif;
 
 use bit_vec::BitVec;
 use buffer::{
@@ -105,6 +107,11 @@ struct Lexer<'src> {
     /// and the mode stack.
     #[cfg(debug_assertions)]
     last_state: (u32, Vec<LexerMode>),
+
+    #[cfg(sas_lexer_verif)]
+    verif: verif::VerifInfo,
+    #[cfg(sas_lexer_verif)]
+    verif_errors_at_checkpoint: usize,
 }
 
 /// Result of lexing
@@ -115,6 +122,9 @@ pub struct LexResult {
 
     #[cfg(any(feature = "opti_stats", test))]
     pub max_mode_stack_depth: usize,
+
+    #[cfg(sas_lexer_verif)]
+    pub verif: verif::VerifInfo,
 }
 
 impl Lexer<'_> {
@@ -159,6 +169,10 @@ impl Lexer<'_> {
             checkpoint: None,
             macro_nesting_level,
             pending_stat_stack: BitVec::from_elem(1, false),
+            #[cfg(sas_lexer_verif)]
+            verif: verif::VerifInfo::default(),
+            #[cfg(sas_lexer_verif)]
+            verif_errors_at_checkpoint: 0,
         })
     }
 
@@ -188,6 +202,12 @@ impl Lexer<'_> {
         // We should always make sure to clear any checkpoints
         debug_assert!(self.checkpoint.is_none());
 
+        #[cfg(sas_lexer_verif)]
+        {
+            self.verif.checkpoints += 1;
+            self.verif_errors_at_checkpoint = self.errors.len();
+        }
+
         self.checkpoint = Some(LexerCheckpoint {
             cursor: self.cursor.clone(),
             cur_token_byte_offset: self.cur_token_byte_offset,
@@ -206,6 +226,13 @@ impl Lexer<'_> {
     /// Rollback the lexer to the last checkpoint, clearing it in the process.
     fn rollback(&mut self) {
         if let Some(checkpoint) = self.checkpoint.take() {
+            #[cfg(sas_lexer_verif)]
+            {
+                self.verif.rollbacks += 1;
+                if self.errors.len() > self.verif_errors_at_checkpoint {
+                    self.verif.rollbacks_with_new_errors += 1;
+                }
+            }
             self.cursor = checkpoint.cursor;
             self.cur_token_byte_offset = checkpoint.cur_token_byte_offset;
             self.cur_token_start = checkpoint.cur_token_start;
@@ -451,7 +478,24 @@ impl Lexer<'_> {
         let mut max_mode_stack_depth = 0usize;
 
         while let Some(next_char) = self.cursor.peek() {
+            #[cfg(sas_lexer_verif)]
+            {
+                self.verif.iterations += 1;
+                if self.verif.iterations > 256 + 32 * u64::from(self.source_len) {
+                    self.verif.budget_exceeded = true;
+                    break;
+                }
+                verif::call_iter_hook();
+            }
+
             self.lex_token(next_char);
+
+            #[cfg(sas_lexer_verif)]
+            {
+                #[allow(clippy::cast_possible_truncation)]
+                let depth = self.mode_stack.len() as u32;
+                self.verif.max_mode_stack_depth = self.verif.max_mode_stack_depth.max(depth);
+            }
 
             #[cfg(any(feature = "opti_stats", test))]
             {
@@ -475,6 +519,8 @@ impl Lexer<'_> {
                             buffer: self.buffer.into_detached(self.source),
                             errors: self.errors,
                             max_mode_stack_depth,
+                            #[cfg(sas_lexer_verif)]
+                            verif: self.verif,
                         };
                     }
 
@@ -483,11 +529,23 @@ impl Lexer<'_> {
                         return LexResult {
                             buffer: self.buffer.into_detached(self.source),
                             errors: self.errors,
+                            #[cfg(sas_lexer_verif)]
+                            verif: self.verif,
                         };
                     }
                 };
                 self.last_state = new_state;
             }
+        }
+
+        #[cfg(sas_lexer_verif)]
+        {
+            self.verif.end = verif::EndConfig {
+                mode_stack: self.mode_stack.iter().map(|m| format!("{m:?}")).collect(),
+                macro_nesting_level: self.macro_nesting_level,
+                pending_stat: self.pending_stat_stack.iter().collect(),
+                checkpoint_live: self.checkpoint.is_some(),
+            };
         }
 
         self.finalize_lexing();
@@ -498,6 +556,8 @@ impl Lexer<'_> {
                 buffer: self.buffer.into_detached(self.source),
                 errors: self.errors,
                 max_mode_stack_depth,
+                #[cfg(sas_lexer_verif)]
+                verif: self.verif,
             }
         }
 
@@ -506,6 +566,8 @@ impl Lexer<'_> {
             LexResult {
                 buffer: self.buffer.into_detached(self.source),
                 errors: self.errors,
+                #[cfg(sas_lexer_verif)]
+                verif: self.verif,
             }
         }
     }
